@@ -44,7 +44,7 @@ def build_translator():
 def regenerate_tables():
     """Gen/Tables.v is regenerated from /repo on every run (only rewritten when it changes)."""
     tr = build_translator()
-    rc, log = sh([tr, REPO, os.path.join(COQ, 'theories', 'Gen', 'Tables.v')])
+    rc, log = sh([tr, REPO, os.path.join(COQ, 'theories', 'Gen')])
     if rc:
         raise BuildError('translator', log)
 
